@@ -118,6 +118,7 @@ type fecDecoder struct {
 	// record the latest recovered shard id
 	// the shards smaller than this one will be discarded
 	newestShardId uint32
+	hasNewest     bool // false until a packet has set newestShardId
 
 	// caches
 	decodeCache [][]byte
@@ -314,6 +315,13 @@ func (dec *fecDecoder) decode(in fecPacket) (recovered [][]byte) {
 		for _, pkt := range pkts {
 			defaultBufferPool.Put(pkt)
 		}
+	}
+
+	// a decoder that has no reference yet takes this packet's shard id: compared with the initial 0,
+	// ids in the upper half of the id space would look "older" and their shard sets be discarded at once
+	if !dec.hasNewest {
+		dec.hasNewest = true
+		dec.newestShardId = shardId
 	}
 
 	// update the newest shard id
